@@ -35,6 +35,9 @@ func (d *decodeCase) witness(target string, src string) map[string]any {
 // returns (value, root name, bytes consumed, error).
 var quirkR *vm.Rand
 
+// otherDoc is the document of the previous checkDecode call (an unrelated shape).
+var otherDoc *decodeCase
+
 func decodeInto(c *vm.Ctx, d *decodeCase, t reflect.Type, plain bool, sub string) (rv reflect.Value, name string, consumed int, err error, panicked bool) {
 	in := append(append([]byte{}, d.doc...), d.trailer...)
 	ptr := reflect.New(t)
@@ -184,6 +187,39 @@ func checkDecode(c *vm.Ctx, r *vm.Rand, d *decodeCase, feats map[string]bool) {
 			}
 		}
 	}
+	// one `var v any` receiving two unrelated documents in a row (a loop that declares v outside): what the
+	// first decode left in v must not constrain the second
+	if otherDoc != nil {
+		var v any
+		var err1, err2 error
+		w := func() any {
+			m := d.witness("any", "bytes.Reader")
+			m["decoded_first_hex"] = vm.Hex(otherDoc.doc)
+			return m
+		}
+		if !c.Guard("dec/any/reused-for-another-document", w, func() {
+			d1 := nbt.NewDecoder(bytes.NewReader(otherDoc.doc))
+			d1.NetworkFormat(otherDoc.network)
+			_, err1 = d1.Decode(&v)
+			d2 := nbt.NewDecoder(bytes.NewReader(d.doc))
+			d2.NetworkFormat(d.network)
+			_, err2 = d2.Decode(&v)
+		}) {
+			c.Eval(0, false)
+			switch {
+			case err1 != nil:
+			case err2 != nil:
+				c.Violation("dec/any/reused-for-another-document/error/"+vm.NormErr(err2.Error()), fmt.Sprintf("a well-formed document is rejected when the any receiver still holds the previous document's value: %v", err2), w())
+			default:
+				if diff := gotypes.MatchGo(reflect.ValueOf(&v).Elem(), d.tree, "$"); diff != "" {
+					c.Violation("dec/any/reused-for-another-document/value-mismatch/"+firstFeature(diff), "an any receiver that held another document's value differs from the document just decoded: "+diff, w())
+				} else {
+					c.Cover("decode.any-reused-for-another-document")
+				}
+			}
+		}
+	}
+	otherDoc = d
 	c.Cover("root." + tagClass(d.tree))
 	if len(d.trailer) > 0 {
 		c.Cover("trailer.nonempty")
